@@ -253,6 +253,19 @@ def make_model(rng, sleep=0.0, integrator=None, extra_flags=True, history=0.3, p
             elif r < 0.7:
                 out.append("set %s interval %r" % (w[1], rng.uniform(0.002, 0.02)))
             out.append("set %s interp %d" % (w[1], rng.choice((0, 1))))
+    # acceleration-stage sensors that go through the lazily evaluated rne-post / subtree caches
+    hmax = max([int(w.split()[1]) for w in out if len(w.split()) > 1 and w.split()[1].isdigit()] + [0])
+    if mdl.sites and rng.random() < 0.7:
+        for st in rng.sample(["ACCELEROMETER", "FORCE", "TORQUE", "FRAMELINACC", "SUBTREELINVEL"], 2):
+            hmax += 1
+            out.append("sensor %d" % hmax)
+            out.append("set %d type %d" % (hmax, E("mjSENS_" + st)))
+            if st == "SUBTREELINVEL":
+                out.append("set %d objtype %d" % (hmax, E("mjOBJ_BODY")))
+                out.append("set %d objname %s" % (hmax, rng.choice(mdl.bodies)["name"]))
+            else:
+                out.append("set %d objtype %d" % (hmax, E("mjOBJ_SITE")))
+                out.append("set %d objname %s" % (hmax, rng.choice(mdl.sites)["name"]))
     mdl.lines = out
     mdl.optflags = opts
     return mdl
@@ -480,7 +493,14 @@ def differential(sc, rng, entry, receiver, sig, nsteps=1, src=0, dst=3):
     integ = integrator_of(sc.mdl)
     an = info.analyze(ENTRY_PROG[entry], sc.sleeping, integ if entry == "step" else "-")
     state_groups = set(g for f in sc.state_fields for g in info.classify[f["field"]])
-    I = set(an["rbw"]) | state_groups
+    if sc.sleeping:
+        I = set(an["rbw"]) | state_groups          # latent state: only full copies are claimed
+    else:
+        # the input set the THEOREMS allow (MjProof.C01.*_inputs_subset_state*), not whatever the analysis of the current
+        # tree reports: a new dependency on derived data must show up as an output difference
+        I = state_groups | {"memc", "stack", "sleep", "locals"}
+        if entry == "inverse":
+            I |= {"qacc", "actuation"}
     desc = make_receiver(sc, rng, receiver, src, dst, I, sig)
     extra_in = [g for g in I if g not in state_groups and g not in NEVER_POISON and g != "sleep"]
     if receiver != "copydata+poison":
